@@ -219,11 +219,11 @@ func (p *contPlan) decide(c *uni.Call) uni.Action {
 	return p.faults.decide(c)
 }
 
-// lookupKey is the key under which the mock cluster finds the region of a raw key (unistore's region
-// manager compares memcomparable-encoded keys).
+// lookupKey is the key under which the mock clusters find the region of a raw key: the region managers of
+// both mocks compare their argument as is with the memcomparable-encoded region keys.
 func lookupKey(u *uni.Universe, k string) []byte {
-	if u.Backend == uni.Uni && k != "" {
-		return codec.EncodeBytes(nil, []byte(k))
+	if k == "" {
+		return []byte{}
 	}
-	return []byte(k)
+	return codec.EncodeBytes(nil, []byte(k))
 }
